@@ -11,6 +11,11 @@ def regenerate_all(repo, gen_dir, aidl_rs):
     except TranslateError as e:
         errors.append(f"translate:SerdeSpec.v: {e}")
     try:
+        import javadoc_re
+        write_if_changed(os.path.join(gen_dir, "JavadocRe.v"), javadoc_re.gen_javadoc_re(repo))
+    except TranslateError as e:
+        errors.append(f"translate:JavadocRe.v: {e}")
+    try:
         import lalrpop_rs
     except ImportError:
         lalrpop_rs = None
